@@ -34,6 +34,10 @@ type AnimSpec struct {
 	// and dispose-background candidate calls.
 	FailAlt bool `json:"fail_alt,omitempty"`
 	FailBG  bool `json:"fail_bg,omitempty"`
+	// Reuse: the simulated caller draws every canvas-sized frame into one buffer of its
+	// own (a tight zero-origin *image.NRGBA) and scribbles over it as soon as AddFrame has
+	// returned -- the usual render loop. The encoder must have taken what it needs.
+	Reuse bool `json:"reuse_buffer,omitempty"`
 }
 
 type AFrame struct {
@@ -365,6 +369,24 @@ func EncodeAnim(a AnimSpec, inputs []image.Image, wf WriteFault) *AnimEncodeResu
 	if a.XMPLen >= 0 {
 		enc.SetXMP(metaBlob(a.Seed, "xmp", a.XMPLen))
 	}
+	var shared *image.NRGBA
+	feed := func(in image.Image) image.Image {
+		if b := in.Bounds(); !a.Reuse || b.Dx() != a.CW || b.Dy() != a.CH {
+			return in
+		}
+		if shared == nil {
+			shared = image.NewNRGBA(image.Rect(0, 0, a.CW, a.CH))
+		}
+		copy(shared.Pix, ToNRGBA(in).Pix)
+		return shared
+	}
+	scribble := func() {
+		if shared != nil {
+			for i := range shared.Pix {
+				shared.Pix[i] ^= 0x5a
+			}
+		}
+	}
 	// tolerated codec-failure faults through the existing function seam
 	orig := animation.FrameEncoderFunc
 	if a.FailAlt || a.FailBG {
@@ -395,17 +417,19 @@ func EncodeAnim(a AnimSpec, inputs []image.Image, wf WriteFault) *AnimEncodeResu
 		for i, in := range inputs {
 			callInFrame = 0
 			subFrameInProgress = i > 0
-			if err := enc.AddFrame(in, time.Duration(a.Frames[i].Dur)*time.Millisecond); err != nil {
+			if err := enc.AddFrame(feed(in), time.Duration(a.Frames[i].Dur)*time.Millisecond); err != nil {
 				res.AddErr, res.AddErrAt = err, i
 				return res
 			}
+			scribble()
 		}
 	} else {
 		for i, in := range inputs {
-			if err := enc.AddFrame(in, time.Duration(a.Frames[i].Dur)*time.Millisecond); err != nil {
+			if err := enc.AddFrame(feed(in), time.Duration(a.Frames[i].Dur)*time.Millisecond); err != nil {
 				res.AddErr, res.AddErrAt = err, i
 				return res
 			}
+			scribble()
 		}
 	}
 	res.CloseErr = enc.Close()
